@@ -893,6 +893,9 @@ def list_method(it, lst: ListObj, name):
             f = z3.Function("seq_remove_first", smt.SeqVal, smt.Val, smt.SeqVal)
             r = f(lst.term, xv)
             it.ctx.assume(z3.Length(r) == z3.Length(lst.term) - 1)
+            # ... and its definition at this list: T = pre ++ [x] ++ post with x not in pre, the result is pre ++ post
+            pre, post = it.ctx.fresh("before_removed", "seq").t, it.ctx.fresh("after_removed", "seq").t
+            it.ctx.assume(z3.And(lst.term == z3.Concat(pre, z3.Unit(xv), post), z3.Not(z3.Contains(pre, z3.Unit(xv))), r == z3.Concat(pre, post)))
             lst.term = r
             return None
         for i, y in enumerate(lst.items):
